@@ -22,6 +22,17 @@ PROPS = {
                     "StorageManager::get is external (assumed to return the stored record)"],
         "assumed": ["residual seen by reading: get_child_node maps NotFound to 'no child', so a reader overtaken during a request can still assemble a non-verifying proof (outside this contract)"],
     },
+    "C09": {
+        "verus": ["auditor"],
+        "search": True,
+        "always_search": True,
+        "scope": "auditor side: audit_verify Ok ==> |epochs|+1 = |hashes|, |epochs| = |proofs| and every transition i was accepted for (hashes[i], hashes[i+1], epochs[i]+1); a transition is "
+                 "accepted only if both reconstructed node sets are prefix-free (no shadowed / duplicated / overlapping subtree) and the reconstructed root hashes equal the given ones "
+                 "(start from the unchanged nodes, end from unchanged + inserted leaves committed with the end epoch). That batch_insert_nodes computes the canonical tree is assumed (C01).",
+        "trusted": ["Azks::new / batch_insert_nodes / get_root_hash external: the root hash is a function of (start epoch, inserted node set, mode) for one insertion into a fresh manager",
+                    "collision resistance for 'replacing any root hash makes verification fail'"],
+        "assumed": ["attacker-supplied epochs are < u64::MAX and the epoch list is shorter than usize::MAX (overflow guards)"],
+    },
     "C11": {
         "verus": [("tree_node", [TN + "determine_node_to_get", TN + "get_appropriate_tree_node_from_storage", TN + "write_to_storage", "TreeNode.write_to_storage", "lemma_rot"])],
         "scope": "partial, record level: TreeNode::write_to_storage writes exactly {label, latest: self, previous: as-of(stored, epoch-1) or None when new}; rotation lemma: that record still "
